@@ -108,6 +108,7 @@ class Consent:
         self.tokens: dict[bytes, tuple[bytes, bytes, bytes]] = {}      # hash -> (prev, content_hash, sig)
         self.metadata: dict[bytes, tuple[bytes, bytes, bytes]] = {}    # hash -> (pointer, json, sig)
         self.attested: set[bytes] = set()                              # metadata hashes this node attested
+        self.attested_tokens: dict[bytes, bytes] = {}                  # token pointer -> first metadata hash attested
         self.third_party: set[bytes] = set()     # metadata hashes for which a disclosure carried somebody's attestation
 
     def register(self, attribute_hash: bytes, name: str, key_bin: bytes, md: dict | None, now: float) -> None:
@@ -150,6 +151,12 @@ class Consent:
                            "over the same metadata)")
             else:
                 verdict = ("twice", "this metadata was attested before")
+        md = self.metadata.get(metadata_pointer)
+        if md is not None:
+            first = self.attested_tokens.setdefault(md[0], metadata_pointer)
+            if verdict is None and first != metadata_pointer:
+                verdict = ("twice-same-token", "another metadata object over the same token (same registration: hash, "
+                                               "name, subject) was attested before")
         self.attested.add(metadata_pointer)
         return verdict
 
